@@ -261,3 +261,296 @@ fn c14_bare_markers() {
     kani::cover!(git, "git source");
     kani::cover!(true, "end of harness reached");
 }
+
+// ------------------------------------------------------------------------------------------------
+// File-header protocol (C14: "exactly one header per file section, with the right paths"): the
+// real handlers of one file section's metadata lines, called in the order `StateMachine::consume`
+// calls them, on a partial `StateMachine`; rendering and path post-processing cut away by stubs,
+// monitors record how many headers are written and from which paths / which `diff` line. The
+// line texts are concrete (one harness per section shape); what is symbolic is the configuration
+// (`--color-only`, a raw / decorated / omitted file style).
+mod headers {
+    use super::super::*;
+    use crate::delta::Source;
+    use crate::handlers::hunk_header::AmbiguousDiffMinusCounter;
+    use crate::style::{DecorationStyle, Style};
+    use std::mem::MaybeUninit;
+    use std::ptr::{addr_of, addr_of_mut};
+
+    // monitor log in scalar fields of the harness-owned Config:
+    //   max_line_length          number of header lines written
+    //   diff_stat_align_width    log of (minus path length, plus path length) per description, base 16
+    //   line_buffer_size         number of lines emitted unchanged
+    //   available_terminal_width log of the lengths of the file names used for pending (mode-only) headers, base 64
+    unsafe fn bump(c: &Config, which: u8, digit: usize, base: usize) {
+        let p = c as *const Config as *mut Config;
+        match which {
+            0 => {
+                let v = addr_of!((*p).max_line_length).read();
+                addr_of_mut!((*p).max_line_length).write(v.wrapping_add(1));
+            }
+            1 => {
+                let v = addr_of!((*p).diff_stat_align_width).read();
+                addr_of_mut!((*p).diff_stat_align_width).write(v.wrapping_mul(base).wrapping_add(digit));
+            }
+            2 => {
+                let v = addr_of!((*p).line_buffer_size).read();
+                addr_of_mut!((*p).line_buffer_size).write(v.wrapping_add(1));
+            }
+            _ => {
+                let v = addr_of!((*p).available_terminal_width).read();
+                addr_of_mut!((*p).available_terminal_width).write(v.wrapping_mul(base).wrapping_add(digit));
+            }
+        }
+    }
+
+    fn stub_write_header(_line: &str, _raw_line: &str, _painter: &mut Painter, mode_info: &mut String, config: &Config) -> std::io::Result<()> {
+        unsafe { bump(config, 0, 0, 0) };
+        // same side effect as the real function: the pending mode information is consumed
+        if !mode_info.is_empty() {
+            mode_info.truncate(0);
+        }
+        Ok(())
+    }
+    fn stub_description(minus_file: &str, plus_file: &str, _comparing: bool, _me: &FileEvent, _pe: &FileEvent, config: &Config) -> String {
+        unsafe {
+            bump(config, 1, minus_file.len() & 15, 16);
+            bump(config, 1, plus_file.len() & 15, 16);
+        }
+        String::new()
+    }
+    // file name from "diff --git a/P b/P": graphemes + join, out of reach (probe c14r). The stub
+    // returns a name whose length identifies the diff line (len - 20), so the monitors can tell
+    // sections apart.
+    static NAMES: [&str; 6] = ["", "n", "nn", "nnn", "nnnn", "nnnnn"];
+    fn stub_repeated_path(line: &str) -> Option<String> {
+        let k = if line.len() >= 20 && line.len() < 26 { line.len() - 20 } else { 0 };
+        Some(NAMES[k].to_string())
+    }
+    fn stub_emit_unchanged<'a>(sm: &mut StateMachine<'a>) -> std::io::Result<bool>
+    where
+        'a: 'a,
+    {
+        unsafe { bump(sm.config, 2, 0, 0) };
+        Ok(true)
+    }
+    fn stub_paint_buffered<'p>(_p: &mut Painter<'p>)
+    where
+        'p: 'p,
+    {
+    }
+    fn stub_set_syntax<'p>(_p: &mut Painter<'p>, _f: Option<&str>)
+    where
+        'p: 'p,
+    {
+    }
+    fn stub_emit<'p>(_p: &mut Painter<'p>) -> std::io::Result<()>
+    where
+        'p: 'p,
+    {
+        Ok(())
+    }
+    fn stub_relativize(_path: &mut String, _config: &Config) {}
+    // only called while the pending (mode-only) header is built: `p` is the file name taken from
+    // the remembered diff line
+    fn stub_absolute_path(p: &str, c: &Config) -> Option<std::path::PathBuf> {
+        unsafe { bump(c, 3, p.len() & 63, 64) };
+        None
+    }
+    fn stub_format(_args: std::fmt::Arguments<'_>) -> String {
+        String::new()
+    }
+    fn stub_delta_unreachable(_m: &str) -> ! {
+        panic!("delta_unreachable reached")
+    }
+
+    struct Cfg {
+        color_only: bool,
+        handled: bool, // should_handle(): the file style is not "raw without decoration"
+    }
+
+    fn setup<'a>(cfg_mem: &'a mut MaybeUninit<Config>, sm_mem: &'a mut MaybeUninit<StateMachine<'a>>) -> (&'a mut StateMachine<'a>, *mut Config, Cfg) {
+        let cp = cfg_mem.as_mut_ptr();
+        let color_only: bool = kani::any();
+        let raw: bool = kani::any();
+        let decorated: bool = kani::any();
+        let omitted: bool = kani::any();
+        let file_style = Style {
+            is_raw: raw,
+            is_omitted: omitted,
+            decoration_style: if decorated { DecorationStyle::Underline(ansi_term::Style::new()) } else { DecorationStyle::NoDecoration },
+            ..Style::new()
+        };
+        unsafe {
+            addr_of_mut!((*cp).color_only).write(color_only);
+            addr_of_mut!((*cp).file_style).write(file_style);
+            addr_of_mut!((*cp).hyperlinks).write(false);
+            addr_of_mut!((*cp).file_modified_label).write(String::new());
+            addr_of_mut!((*cp).right_arrow).write(String::new());
+            addr_of_mut!((*cp).max_line_length).write(0);
+            addr_of_mut!((*cp).diff_stat_align_width).write(0);
+            addr_of_mut!((*cp).line_buffer_size).write(0);
+            addr_of_mut!((*cp).available_terminal_width).write(0);
+        }
+        let config: &'a Config = unsafe { &*cp };
+        let sp = sm_mem.as_mut_ptr();
+        unsafe {
+            addr_of_mut!((*sp).line).write(String::new());
+            addr_of_mut!((*sp).raw_line).write(String::new());
+            addr_of_mut!((*sp).state).write(State::Unknown);
+            addr_of_mut!((*sp).source).write(Source::GitDiff);
+            addr_of_mut!((*sp).minus_file).write(String::new());
+            addr_of_mut!((*sp).plus_file).write(String::new());
+            addr_of_mut!((*sp).minus_file_event).write(FileEvent::NoEvent);
+            addr_of_mut!((*sp).plus_file_event).write(FileEvent::NoEvent);
+            addr_of_mut!((*sp).diff_line).write(String::new());
+            addr_of_mut!((*sp).mode_info).write(String::new());
+            addr_of_mut!((*sp).current_file_pair).write(None);
+            addr_of_mut!((*sp).handled_diff_header_header_line_file_pair).write(None);
+            addr_of_mut!((*sp).config).write(config);
+            addr_of_mut!((*sp).minus_line_counter).write(AmbiguousDiffMinusCounter::not_needed());
+            addr_of_mut!((*sp).painter.config).write(config);
+        }
+        (unsafe { &mut *sp }, cp, Cfg { color_only, handled: !(raw && !decorated) })
+    }
+
+    // the part of `StateMachine::consume`'s handler chain that concerns file metadata lines
+    fn feed(sm: &mut StateMachine, text: &'static str) {
+        sm.line = text.to_string();
+        sm.raw_line = text.to_string();
+        let handled = sm.handle_diff_header_diff_line().unwrap()
+            || sm.handle_diff_header_file_operation_line().unwrap()
+            || sm.handle_diff_header_minus_line().unwrap()
+            || sm.handle_diff_header_plus_line().unwrap()
+            || sm.handle_diff_header_mode_line().unwrap()
+            || sm.should_skip_line()
+            || sm.emit_line_unchanged().unwrap();
+        assert!(handled, "every metadata line is claimed by exactly one step of the chain");
+    }
+
+    fn read(cp: *mut Config) -> (usize, usize, usize, usize) {
+        unsafe {
+            (
+                addr_of!((*cp).max_line_length).read(),
+                addr_of!((*cp).diff_stat_align_width).read(),
+                addr_of!((*cp).line_buffer_size).read(),
+                addr_of!((*cp).available_terminal_width).read(),
+            )
+        }
+    }
+
+    macro_rules! header_harness {
+        ($name:ident, $body:expr) => {
+            #[kani::proof]
+            #[kani::unwind(28)]
+            #[kani::stub(write_generic_diff_header_header_line, stub_write_header)]
+            #[kani::stub(get_file_change_description_from_file_paths, stub_description)]
+            #[kani::stub(get_repeated_file_path_from_diff_line, stub_repeated_path)]
+            #[kani::stub(crate::delta::StateMachine::emit_line_unchanged, stub_emit_unchanged)]
+            #[kani::stub(crate::paint::Painter::paint_buffered_minus_and_plus_lines, stub_paint_buffered)]
+            #[kani::stub(crate::paint::Painter::set_syntax, stub_set_syntax)]
+            #[kani::stub(crate::paint::Painter::emit, stub_emit)]
+            #[kani::stub(crate::utils::path::relativize_path_maybe, stub_relativize)]
+            #[kani::stub(crate::utils::path::absolute_path, stub_absolute_path)]
+            #[kani::stub(std::fmt::format, stub_format)]
+            #[kani::stub(crate::config::delta_unreachable, stub_delta_unreachable)]
+            fn $name() {
+                let mut cfg_mem = MaybeUninit::<Config>::uninit();
+                let mut sm_mem = MaybeUninit::<StateMachine>::uninit();
+                let (sm, cp, cfg) = setup(&mut cfg_mem, &mut sm_mem);
+                let f: fn(&mut StateMachine, *mut Config, &Cfg) = $body;
+                f(sm, cp, &cfg);
+                kani::cover!(cfg.color_only, "--color-only");
+                kani::cover!(!cfg.color_only && cfg.handled, "file style handled by delta");
+                kani::cover!(!cfg.color_only && !cfg.handled, "raw file style without decoration");
+                kani::cover!(true, "end of harness reached");
+            }
+        };
+    }
+
+    // A renamed file WITH changes: both the rename lines and the ---/+++ lines name the pair; the
+    // header must be written once (#245), from the pair (old, new).
+    header_harness!(c14_headers_rename_with_changes, |sm, cp, cfg| {
+        feed(sm, "diff --git a/o b/nw"); // 19 bytes
+        feed(sm, "similarity index 90%");
+        feed(sm, "rename from o");
+        feed(sm, "rename to nw");
+        feed(sm, "index 1111111..2222222 100644");
+        feed(sm, "--- a/o");
+        feed(sm, "+++ b/nw");
+        sm.handle_pending_line_with_diff_name().unwrap(); // end of input
+        let (headers, paths, unchanged, _) = read(cp);
+        if cfg.color_only {
+            assert!(headers == 4 && unchanged == 3, "--color-only: every rename/---/+++ line is re-emitted as its own line, the others unchanged");
+        } else if cfg.handled {
+            assert!(headers == 1, "renamed file with changes: exactly one header");
+            assert!(paths == 0x12, "the header is built from the pair (old path, new path)");
+            assert!(unchanged == 0, "metadata lines are not shown in addition to the header");
+        } else {
+            assert!(headers == 0 && unchanged == 7, "raw file style: every line passes through unchanged, no header is added");
+        }
+    });
+
+    // A modified file: one header, from (path, path).
+    header_harness!(c14_headers_modified, |sm, cp, cfg| {
+        feed(sm, "diff --git a/f b/f");
+        feed(sm, "index 1111111..2222222 100644");
+        feed(sm, "--- a/f");
+        feed(sm, "+++ b/f");
+        sm.handle_pending_line_with_diff_name().unwrap();
+        let (headers, paths, unchanged, _) = read(cp);
+        if cfg.color_only {
+            assert!(headers == 2 && unchanged == 2, "--color-only: line for line");
+        } else if cfg.handled {
+            assert!(headers == 1 && paths == 0x11 && unchanged == 0, "modified file: exactly one header, from its path");
+        } else {
+            assert!(headers == 0 && unchanged == 4, "raw file style: pass-through");
+        }
+    });
+
+    // A pure rename (no ---/+++ lines) followed by a modified file: two sections, one header each,
+    // the first from the rename pair.
+    header_harness!(c14_headers_rename_then_modified, |sm, cp, cfg| {
+        feed(sm, "diff --git a/o b/nw");
+        feed(sm, "similarity index 100%");
+        feed(sm, "rename from o");
+        feed(sm, "rename to nw");
+        feed(sm, "diff --git a/f b/f");
+        feed(sm, "index 1111111..2222222 100644");
+        feed(sm, "--- a/f");
+        feed(sm, "+++ b/f");
+        sm.handle_pending_line_with_diff_name().unwrap();
+        let (headers, paths, unchanged, _) = read(cp);
+        if cfg.color_only {
+            assert!(headers == 4 && unchanged == 4, "--color-only: line for line");
+        } else if cfg.handled {
+            assert!(headers == 2, "two file sections: two headers");
+            assert!(paths == 0x1211, "first header from the rename pair, second from the modified file");
+            assert!(unchanged == 0, "no metadata line shown besides the headers");
+        } else {
+            assert!(headers == 0 && unchanged == 8, "raw file style: pass-through");
+        }
+    });
+
+    // A mode-only section followed by another section: the mode change is reported once, under
+    // the name taken from ITS OWN diff line (length 21 -> name "n"), not the next one's (23 -> "nnn").
+    header_harness!(c14_headers_mode_only_then_modified, |sm, cp, cfg| {
+        feed(sm, "diff --git a/s.sh b/s"); // 21 bytes -> stub name "n"
+        feed(sm, "old mode 100644");
+        feed(sm, "new mode 100755");
+        feed(sm, "diff --git a/main b/mai"); // 23 bytes -> stub name "nnn"
+        feed(sm, "index 1111111..2222222 100644");
+        feed(sm, "--- a/main");
+        feed(sm, "+++ b/main");
+        sm.handle_pending_line_with_diff_name().unwrap();
+        let (headers, paths, unchanged, names) = read(cp);
+        if !cfg.color_only && cfg.handled {
+            assert!(headers == 2, "mode-only section and modified section: one header each");
+            assert!(paths == 0x44, "the second header is built from the second file's path");
+            // the name used for the pending mode header: "n" (from the 21-byte diff line), once
+            assert!(names == 1, "the pending mode header takes its file name from its own diff line");
+            assert!(unchanged == 0, "no metadata line shown besides the headers");
+        }
+        kani::cover!(!cfg.color_only && cfg.handled && headers == 2, "both headers written");
+    });
+}
